@@ -559,6 +559,7 @@ func TestPropMeasure(t *testing.T) {
 	stats.Assume("every coordinate is an integer multiple of 2^-40 with |v| <= 2^21: integer lattices and general-position floats k*2^-40 (no subnormal-range magnitudes, whose squares underflow)")
 	stats.Assume("lattice inputs are integers with |v| <= 2^20 before and after the integer translation; the centroid is held to 1e-9*scale without a conditioning term only for integers |v| <= 2^12 in a power-of-two unit (exact numerators)")
 	stats.Assume("half of the cases are multiplied as a whole (geometry, queries, translation) by 2^k, k in -60..60; all tolerances are relative to the case's own coordinate scale, none is absolute")
+	stats.Assume("the value handed to orb is laid out shared / spare / plain in 40/40/20 % of the cases (internal/layout); the model uses the independent original; after every orb call the whole argument incl. all spare capacity must be bit-identical")
 	stats.Assume("polygon holes lie in distinct quadrants of a rectangle contained in the outer ring (nested, interior-disjoint)")
 	stats.Assume("centroid not asserted where the statement does not define it: zero total area / length / count, collections whose top dimension is below 2 or that contain a clockwise ring")
 	stats.Check(t, 48000, 1500000, func(rt *rapid.T) {
@@ -601,6 +602,8 @@ func TestPropMeasure(t *testing.T) {
 				stats.Sample("measure "+kind, c)
 			}
 		}
+		c.Layout = rapid.SampledFrom(layouts).Draw(rt, "layout")
+		stats.Class("layout:" + c.Layout)
 		c.K = genK(rt)
 		if !inDomain(c) {
 			rt.Fatalf("harness: generated a case outside the stated domain: %s", gen.JSON(c))
@@ -704,6 +707,8 @@ func TestPropDistance(t *testing.T) {
 				stats.Sample("distance "+kind, c)
 			}
 		}
+		c.Layout = rapid.SampledFrom(layouts).Draw(rt, "layout")
+		stats.Class("layout:" + c.Layout)
 		c.K = genK(rt)
 		if !inDomain(c) {
 			rt.Fatalf("harness: generated a case outside the stated domain: %s", gen.JSON(c))
@@ -758,7 +763,7 @@ func TestEnumSegment(t *testing.T) {
 				qs[i] = gen.FromPt(p)
 			}
 			for _, k := range []int{0, -50, 40} { // the grid as it is and rescaled by 2^-50 and 2^40
-				c := Case{Op: "distance", G: gen.G{V: orb.LineString{a, b}}, Q: qs, K: k}
+				c := Case{Op: "distance", G: gen.G{V: orb.LineString{a, b}}, Q: qs, K: k, Layout: layouts[idx%5]}
 				stats.Eval("TestEnumSegment", int64(len(pts)))
 				for _, p := range pts {
 					if nearestInterior(c.G.V, p) {
@@ -766,7 +771,7 @@ func TestEnumSegment(t *testing.T) {
 					}
 				}
 				stats.TryT(t, "TestEnumSegment", c, func() error { return checkCase(c) })
-				c2 := Case{Op: "distance", G: gen.G{V: orb.Ring{a, b, {2, 2}, a}}, Q: qs, K: k}
+				c2 := Case{Op: "distance", G: gen.G{V: orb.Ring{a, b, {2, 2}, a}}, Q: qs, K: k, Layout: layouts[idx%5]}
 				stats.TryT(t, "TestEnumSegment", c2, func() error { return checkCase(c2) })
 			}
 		}
@@ -818,8 +823,10 @@ func TestEnumRings(t *testing.T) {
 				}
 				stats.Eval("TestEnumRings", 1)
 				twoA, nx, ny := intShoelace(ir)
-				cs := Case{Op: "measure", G: gen.G{V: ring}}
+				cs := Case{Op: "measure", G: gen.G{V: ring}, Layout: layouts[idx%5]}
 				stats.TryT(t, "TestEnumRings", cs, func() error {
+					curLayout = cs.Layout
+					defer func() { curLayout = "" }()
 					// expectation from the int64 oracle alone
 					m := measure{dim: 2, area: rat(float64(twoA) / 2), scale: maxAbs(ring)}
 					m.tolA, m.errA, m.tolC = ringTol(ring, float64(twoA)/2, [2]float64{})
